@@ -233,6 +233,7 @@ struct Stats {
     known_hits: BTreeMap<String, u64>,
     excluded: BTreeMap<String, u64>,
     failure: Option<Value>,
+    more_failures: Vec<Value>,
     harness_error: Option<String>,
     frozen: bool,
 }
@@ -375,10 +376,14 @@ pub fn worker_main(prop: &dyn Property, tier: Tier, seed: u64, w: usize, n: usiz
     while idx < total {
         let (v, r) = worker.run_case(CaseId::Enum(idx), false);
         if let Verdict::Fail { clause, detail } = v {
-            let (_, r2) = if r.is_none() { worker.run_case(CaseId::Enum(idx), true) } else { (Verdict::Pass, r) };
-            worker.stats.borrow_mut().frozen = true;
-            worker.record_failure(CaseId::Enum(idx), &clause, &detail, r2, false);
-            break;
+            // enumerated cases are independent: keep going so that one shallow failure does not hide the rest
+            let mut st = worker.stats.borrow_mut();
+            if st.more_failures.len() < 40 {
+                st.more_failures.push(json!({
+                    "property": prop.id(), "tier": tier.name(), "clause": clause, "detail": detail, "shrunk": false,
+                    "rendered": r, "kind": "enum", "index": idx,
+                }));
+            }
         }
         idx += n as u64;
     }
@@ -448,6 +453,7 @@ pub fn worker_main(prop: &dyn Property, tier: Tier, seed: u64, w: usize, n: usiz
         "known_hits": st.known_hits,
         "excluded": st.excluded,
         "failure": st.failure,
+        "more_failures": st.more_failures,
         "harness_error": st.harness_error,
     });
     let tmp = out.with_extension("tmp");
@@ -691,6 +697,11 @@ pub fn check_main(prop: &dyn Property, tier: Tier, seed: u64) -> i32 {
                 }
                 if let Some(e) = v["harness_error"].as_str() {
                     broken.push(format!("worker {}: {}", w, e));
+                }
+                for f in v["more_failures"].as_array().unwrap_or(&vec![]) {
+                    let p = save_found(id, seed, f);
+                    violations.push(format!("VIOLATION property={} replay={}", id, p.display()));
+                    notes.push(format!("clause: {} -- {}", f["clause"].as_str().unwrap_or(""), f["detail"].as_str().unwrap_or("")));
                 }
                 if !v["failure"].is_null() {
                     let p = save_found(id, seed, &v["failure"]);
